@@ -43,6 +43,12 @@ pub struct Case {
     /// false = plain thread, true = task on the event loop
     pub in_task: bool,
     pub calls: Vec<Call>,
+    /// unrelated readiness while the calls wait: the caller first makes a hooked recv on
+    /// another socket time out (10 ms SO_RCVTIMEO; its read interest stays registered under
+    /// the caller's token), then a helper thread writes a byte to that socket's peer every
+    /// 2 ms for as long as the calls run. Nothing the calls wait for becomes ready.
+    #[serde(default)]
+    pub noise: bool,
 }
 
 impl Call {
@@ -148,7 +154,7 @@ fn call_strategy(thorough: bool) -> impl Strategy<Value = Call> {
 }
 
 pub fn strategy(thorough: bool) -> impl Strategy<Value = Case> {
-    (any::<bool>(), proptest::collection::vec(call_strategy(thorough), 1..5)).prop_map(|(in_task, calls)| Case { in_task, calls })
+    (any::<bool>(), proptest::collection::vec(call_strategy(thorough), 1..5), proptest::bool::weighted(0.4)).prop_map(|(in_task, calls, noise)| Case { in_task, calls, noise })
 }
 
 fn errno() -> c_int {
@@ -236,8 +242,48 @@ fn perform(c: Call, p: &Pair, native: bool) -> (i64, c_int) {
     }
 }
 
+struct Noise {
+    stop: std::sync::Arc<std::sync::atomic::AtomicBool>,
+    thread: Option<std::thread::JoinHandle<()>>,
+}
+
+impl Drop for Noise {
+    fn drop(&mut self) {
+        self.stop.store(true, std::sync::atomic::Ordering::SeqCst);
+        if let Some(t) = self.thread.take() {
+            let _ = t.join();
+        }
+    }
+}
+
+fn start_noise() -> Noise {
+    let mut n = [0 as c_int; 2];
+    unsafe {
+        assert_eq!(0, libc::socketpair(libc::AF_UNIX, libc::SOCK_STREAM, 0, n.as_mut_ptr()));
+    }
+    let tv = timeval { tv_sec: 0, tv_usec: 10_000 };
+    let _ = hooked::setsockopt(None, n[0], libc::SOL_SOCKET, libc::SO_RCVTIMEO, std::ptr::from_ref(&tv).cast(), std::mem::size_of::<timeval>() as libc::socklen_t);
+    let mut b = [0u8; 1];
+    // nothing to read: this wait runs into its 10 ms limit
+    let _ = hooked::recv(None, n[0], b.as_mut_ptr().cast(), 1, 0);
+    let stop = std::sync::Arc::new(std::sync::atomic::AtomicBool::new(false));
+    let s2 = stop.clone();
+    let peer = n[1];
+    let thread = std::thread::spawn(move || {
+        let x = [9u8];
+        while !s2.load(std::sync::atomic::Ordering::SeqCst) {
+            unsafe {
+                libc::send(peer, x.as_ptr().cast(), 1, libc::MSG_DONTWAIT | libc::MSG_NOSIGNAL);
+            }
+            std::thread::sleep(Duration::from_millis(2));
+        }
+    });
+    Noise { stop, thread: Some(thread) }
+}
+
 fn run_calls(case: &Case) {
     let p = make_pairs();
+    let _noise = if case.noise { Some(start_noise()) } else { None };
     for (k, c) in case.calls.iter().enumerate() {
         // the native answer first where it returns at once (ready descriptor / invalid arguments)
         let native = if c.ready() || c.invalid() { Some(perform(*c, &p, true)) } else { None };
@@ -414,6 +460,8 @@ pub fn exec(c: &Case) -> Outcome {
         .class_if(c.calls.iter().any(|x| matches!(x, Call::Poll { .. })), "has-poll")
         .class_if(c.calls.iter().any(|x| matches!(x, Call::CondTimedwait { .. })), "has-cond-timedwait")
         .class_if(c.calls.iter().any(Call::ready), "ready-descriptor")
+        .class_if(c.noise, "unrelated-readiness-during-the-waits")
+        .class_if(c.noise && c.in_task, "unrelated-readiness-during-the-waits-of-a-task")
 }
 
 pub fn main(args: &Args) -> i32 {
@@ -434,7 +482,7 @@ pub fn main(args: &Args) -> i32 {
         &RunCfg {
             property: "C14",
             sub: "timed-waits",
-            rule: "fresh child per case: caller kind (thread | task) x 1..4 calls of sleep/usleep/nanosleep/poll/select/pthread_cond_timedwait with generated time arguments; non-trivial = a non-zero timeout below 1 ms, or >= 10 ms, or an invalid argument, or a task caller",
+            rule: "fresh child per case: caller kind (thread | task) x 1..4 calls of sleep/usleep/nanosleep/poll/select/pthread_cond_timedwait with generated time arguments, optionally with unrelated readiness events arriving under the caller's token while it waits; non-trivial = a non-zero timeout below 1 ms, or >= 10 ms, or an invalid argument, or a task caller",
             seed: args.seed,
             cases: args.cases(1_500, 12_000),
             shards: 16,
